@@ -846,4 +846,4 @@ pub fn run(rep: &Report) {
     rep.floor("in-process texts", rep.evals(), 20_000);
 }
 
-pub const RULE: &str = "texts: 40 fixed edge inputs (empty, no final newline, only comments, CR/LF, NUL, non-ASCII in comments/strings/code, unbalanced quotes/brackets/braces, malformed and recursive macros, huge constants), character-level mutations (delete/insert/replace with structural characters, control and multi-byte characters; duplicate/delete chunks; truncate; grow numbers; splice dictionary tokens; swap lines) of generated valid programs and of a macro program, token soup from the grammar's dictionary, digit strings of 1..20000 (in process) and up to 100000 digits (binary), macro chains of depth 1..200 (in process) and up to 4096 (binary), data-loader lines and interpreter lines mutated the same way (the data loader also after SETs that move the counter to the end of memory). In-process targets (Preprocessor, DataParser, Interpreter) run under catch_unwind inside worker child processes; a worker's death (stack overflow, abort) is observed by the parent and attributed to the case it was running. The binary is run on byte-mutated source files (incl. invalid UTF-8) with mixed prompt answers, on fixed programs whose prompts / console services receive hostile stdin lines (huge numbers, invalid UTF-8, NUL, CR/LF, end of input in the middle of a line), and on 22 size/depth families at four doubling sizes (timed; growth reported). Verdict per run: panic (exit 101), abort/signal, or spin (output cap exceeded) is a violation; a watchdog alone is inconclusive. Distinct = (target, family, outcome, log2 length). Valid generated programs whose first physical line holds code, walked to the end free and under -i; files of 257..65537 lines that stop in the middle of a construct. A flood is a spin only when megabytes of output follow the last hook record (a looping program keeps producing records). Growth is judged on CPU time (sampled from /proc, not wall clock): for every size family whose largest run costs at least 0.5 CPU seconds the exponent between size x and size 4x must stay below 1.6 (linear 1.0, quadratic 2.0); a suspicious family is measured twice more, one process at a time, and the smallest times decide.";
+pub const RULE: &str = "texts: 40 fixed edge inputs (empty, no final newline, only comments, CR/LF, NUL, non-ASCII in comments/strings/code, unbalanced quotes/brackets/braces, malformed and recursive macros, huge constants), character-level mutations (delete/insert/replace with structural characters, control and multi-byte characters; duplicate/delete chunks; truncate; grow numbers; splice dictionary tokens; swap lines) of generated valid programs and of a macro program, token soup from the grammar's dictionary, digit strings of 1..20000 (in process) and up to 100000 digits (binary), macro chains of depth 1..200 (in process) and up to 4096 (binary), data-loader lines and interpreter lines mutated the same way (the data loader also after SETs that move the counter to the end of memory). In-process targets (Preprocessor, DataParser, Interpreter) run under catch_unwind inside worker child processes; a worker's death (stack overflow, abort) is observed by the parent and attributed to the case it was running. The binary is run on byte-mutated source files (incl. invalid UTF-8) with mixed prompt answers, on fixed programs whose prompts / console services receive hostile stdin lines (huge numbers, invalid UTF-8, NUL, CR/LF, end of input in the middle of a line), and on 22 size/depth families at four doubling sizes (timed; growth reported). Verdict per run: panic (exit 101), abort/signal, or spin (output cap exceeded) is a violation; a watchdog alone is inconclusive. Distinct = (target, family, outcome, log2 length). Valid generated programs whose first physical line holds code, walked to the end free and under -i; files of 257..65537 lines that stop in the middle of a construct. A flood is a spin only when megabytes of output follow the last hook record (a looping program keeps producing records). Growth is judged on CPU time (sampled from /proc, not wall clock): for every size family whose largest run costs at least 0.5 CPU seconds the exponent between size x and size 4x must stay below 1.6 (linear 1.0, quadratic 2.0); a suspicious family is measured twice more, one process at a time, and the smallest times decide. 1000 / 30000 / 100000 rejected lines of six kinds at ONE prompt, then ordinary commands: no abort, and the program reaches its end; a prompt run's output budget grows by 3.6 MB per typed print command.";
